@@ -15,7 +15,7 @@ REPO = os.environ.get("CCT_REPO", "/repo")
 HERE = os.path.dirname(os.path.abspath(__file__))
 OUT = os.path.join(os.path.dirname(HERE), "coq", "theories", "Gen", "Source.v")
 MODULES = ["common"]
-BUILTIN_CALLS = {"len", "sorted", "set", "int"}
+BUILTIN_CALLS = {"len", "sorted", "set", "int", "all"}
 TYPE_NAMES = {"dict", "list", "tuple", "str", "int", "float", "bool", "bytes", "set"}
 ISINSTANCE_CLASSES = {"str", "dict", "list", "timedelta", "bytes"}
 CMP = {ast.Eq: "CEq", ast.NotEq: "CNotEq", ast.Lt: "CLt", ast.LtE: "CLtE", ast.Gt: "CGt", ast.GtE: "CGtE", ast.In: "CIn", ast.NotIn: "CNotIn"}
@@ -32,7 +32,8 @@ def ustr(s):
 
 
 class Tr:
-    def __init__(self, fnames, type_tuples=None):
+    def __init__(self, fnames, type_tuples=None, str_lists=None):
+        self.str_lists = str_lists or {}       # module-level NAME = ["a", "b"]: lists/tuples of str constants
         self.fnames = fnames          # functions of the module
         self.type_tuples = type_tuples or {}   # module-level NAME = (dict, list, ...): tuples/lists of builtin classes
         self.unsupported = []
@@ -54,6 +55,8 @@ class Tr:
         if isinstance(e, ast.Name):
             if e.id in self.locals:
                 return "(EName %s)" % cstring(e.id)
+            if e.id in self.str_lists:
+                return "(EList [%s])" % "; ".join("(EStr %s)" % ustr(x) for x in self.str_lists[e.id])      # module constant, inlined
             return self.bad_e("global name " + e.id)
         if isinstance(e, ast.Constant):
             v = e.value
@@ -90,6 +93,8 @@ class Tr:
                 if isinstance(f.value, ast.Name) and f.value.id not in self.locals:
                     if (f.value.id, f.attr) == ("bytes", "fromhex"):
                         return "(ECall %s %s)" % (cstring("bytes.fromhex"), self.exprs(e.args))
+                    if (f.value.id, f.attr) == ("datetime", "strptime") and len(e.args) == 2:
+                        return "(ECall %s %s)" % (cstring("datetime.strptime"), self.exprs(e.args))
                     return self.bad_e("call of %s.%s" % (f.value.id, f.attr))
                 return "(EMeth %s %s %s)" % (self.expr(f.value), cstring(f.attr), self.exprs(e.args))
             return self.bad_e("call of an expression")
@@ -118,6 +123,17 @@ class Tr:
             return "(EList %s)" % self.exprs(e.elts)
         if isinstance(e, ast.Set):
             return "(ESet %s)" % self.exprs(e.elts)
+        if isinstance(e, ast.ListComp):
+            if len(e.generators) == 1 and not e.generators[0].ifs and not e.generators[0].is_async and isinstance(e.generators[0].target, ast.Name):
+                g = e.generators[0]
+                it = self.expr(g.iter)
+                shadow = g.target.id in self.locals
+                self.locals.add(g.target.id)
+                elt = self.expr(e.elt)
+                if not shadow:
+                    self.locals.discard(g.target.id)
+                return "(EListComp %s %s %s)" % (elt, cstring(g.target.id), it)
+            return self.bad_e("comprehension form")
         return self.bad_e("expression " + type(e).__name__)
 
     def stmts(self, l):
@@ -171,6 +187,8 @@ class Tr:
             return "(SFor %s %s %s)" % (cstring(s.target.id), it, self.stmts(s.body))
         if isinstance(s, ast.Pass):
             return "SPass"
+        if isinstance(s, ast.Assert):
+            return "(SAssert %s)" % self.expr(s.test)
         return self.bad_s("statement " + type(s).__name__)
 
 
@@ -204,10 +222,16 @@ def translate_module(mod):
                     break
             if names and assigned.get(n.targets[0].id) == 1:
                 type_tuples[n.targets[0].id] = names
+    str_lists = {}
+    for n in tree.body:
+        if (isinstance(n, ast.Assign) and len(n.targets) == 1 and isinstance(n.targets[0], ast.Name) and isinstance(n.value, (ast.Tuple, ast.List))
+                and n.value.elts and all(isinstance(x, ast.Constant) and isinstance(x.value, str) for x in n.value.elts)
+                and assigned.get(n.targets[0].id) == 1):
+            str_lists[n.targets[0].id] = [x.value for x in n.value.elts]
     res = {}
     for name, fn in funs.items():
         a = fn.args
-        t = Tr(set(funs), type_tuples)
+        t = Tr(set(funs), type_tuples, str_lists)
         if a.vararg or a.kwarg or a.kwonlyargs or a.defaults or a.posonlyargs or fn.decorator_list:
             t.unsupported.append("signature")
         params = [x.arg for x in a.args]
